@@ -85,7 +85,10 @@ NameTab == <<"F1", "F2", "Fm1", "Fm2", "Fm3", "DeviceGray", "DeviceRGB", "Device
             "CsI1", "CsI3", "CsI4", "CsBad", "CsN2", "CsN3", "CsSep", "CsIdx", "CsLab">>
 OpTab == <<"q", "Q", "cm", "w", "d", "BT", "ET", "Tc", "Tw", "Tz", "TL", "Tf", "Ts", "Td", "TD", "Tm", "T*", "Tj", "TJ", "'", "\"",
            "g", "G", "rg", "RG", "k", "K", "cs", "CS", "sc", "scn", "SC", "SCN", "m", "l", "c", "v", "y", "h", "re",
-           "S", "s", "f", "F", "f*", "B", "B*", "b", "b*", "n", "Do", "zz">>
+           "S", "s", "f", "F", "f*", "B", "B*", "b", "b*", "n", "Do", "zz",
+           \* operators that take operands but change nothing of the modelled state (marked content, compatibility sections,
+           \* clipping, the graphics-state parameters no shape reports, shading, rendering mode, ExtGState)
+           "BMC", "BDC", "EMC", "MP", "DP", "BX", "EX", "W", "W*", "J", "j", "M", "i", "ri", "gs", "Tr", "sh">>
 IdxOf(tab, x) == CHOOSE i \in 1..Len(tab) : tab[i] = x
 Nam(s)  == [t |-> "name", n |-> 0, s |-> <<IdxOf(NameTab, s)>>, a |-> <<>>]
 Arr(a)  == [t |-> "arr", n |-> 0, s |-> <<>>, a |-> a]        \* a: sequence of Num/Str tokens
@@ -109,9 +112,10 @@ State0(ctm, env) == [ctm |-> ctm, dctm |-> ctm, env |-> env, gstack |-> <<>>, ts
                 glyphs |-> <<>>, shapes |-> <<>>, err |-> "none"]
 
 NArgs(o) == CASE o \in {"q", "Q", "BT", "ET", "T*", "h", "S", "s", "f", "F", "f*", "B", "B*", "b", "b*", "n", "W", "W*",
-                        "sc", "scn", "SC", "SCN"} -> 0
-              [] o \in {"Tc", "Tw", "Tz", "TL", "Ts", "Tr", "Tj", "TJ", "'", "g", "G", "w", "cs", "CS", "Do", "J", "j", "M", "i", "ri", "gs"} -> 1
-              [] o \in {"Td", "TD", "Tf", "m", "l", "d"} -> 2
+                        "sc", "scn", "SC", "SCN", "EMC", "BX", "EX"} -> 0
+              [] o \in {"Tc", "Tw", "Tz", "TL", "Ts", "Tr", "Tj", "TJ", "'", "g", "G", "w", "cs", "CS", "Do", "J", "j", "M", "i", "ri", "gs",
+                        "BMC", "MP", "sh"} -> 1
+              [] o \in {"Td", "TD", "Tf", "m", "l", "d", "BDC", "DP"} -> 2
               [] o \in {"rg", "RG", "\""} -> 3
               [] o \in {"k", "K", "re", "v", "y"} -> 4
               [] o \in {"cm", "Tm", "c"} -> 6
@@ -340,12 +344,13 @@ AColor    == IsOp({"g", "G", "rg", "RG", "k", "K", "cs", "CS", "sc", "scn", "SC"
 APath     == IsOp({"m", "l", "c", "v", "y", "h", "re"}) /\ Adv
 APaint    == IsOp({"S", "s", "f", "F", "f*", "B", "B*", "b", "b*", "n"}) /\ Adv
 ADo       == IsOp({"Do"}) /\ Adv
+APassThrough == IsOp({"BMC", "BDC", "EMC", "MP", "DP", "BX", "EX", "W", "W*", "J", "j", "M", "i", "ri", "gs", "Tr", "sh"}) /\ Adv
 AUnknown  == pc <= Len(prog) /\ st.err = "none" /\ CurTok.t = "op" /\ NArgs(OpStr(CurTok)) < 0 /\ Adv
 \* (simulation of long mixed programs) append one more operator instance when the program has been executed
 AExtend == /\ pc > Len(prog) /\ st.err = "none" /\ Len(prog) < MixTokens
            /\ \E ins \in MixPool : prog' = prog \o ins
            /\ UNCHANGED <<dev, pc, st, snaps>>
-Next == AExtend \/ APushOperand \/ AGState \/ ATextObj \/ ATextState \/ ATextPos \/ AShow \/ AColor \/ APath \/ APaint \/ ADo \/ AUnknown
+Next == AExtend \/ APushOperand \/ AGState \/ ATextObj \/ ATextState \/ ATextPos \/ AShow \/ AColor \/ APath \/ APaint \/ ADo \/ APassThrough \/ AUnknown
 
 Done == (pc > Len(prog) /\ Len(prog) >= MixTokens) \/ st.err # "none"
 
